@@ -17,7 +17,7 @@ import (
 
 func init() { commands["connwire"] = connwireMain }
 
-// vh connwire -tier quick|thorough -out conns.ndjson -log scenarios.ndjson [-par N] [-only substring]
+// vh connwire -tier quick|thorough -out conns.ndjson -log scenarios.ndjson [-par N] [-only substring] [-probe]
 //
 // Runs the scenarios of driver B of C04 (requests written by the hand-written Conn codec) and writes one line per
 // captured connection: {scenario, conn, addr, clientId, advertised:[{k,lo,hi}], stream:[bytes], werr}.
@@ -28,10 +28,11 @@ func connwireMain(args []string) int {
 	logp := fs.String("log", "", "output ndjson (one account per scenario)")
 	par := fs.Int("par", 8, "scenarios run concurrently")
 	only := fs.String("only", "", "run only scenarios whose name contains this")
+	probe := fs.Bool("probe", false, "also run the probe scenario (hard-coded versions against a broker that advertises less; not part of the check)")
 	fs.Parse(args)
 	seed, _ := strconv.ParseInt(os.Getenv("VERIF_SEED"), 10, 64)
 	var list []*connwire.Scenario
-	for _, s := range connwire.Scenarios(*tier) {
+	for _, s := range connwire.Scenarios(*tier, *probe) {
 		if *only == "" || strings.Contains(s.Name, *only) {
 			list = append(list, s)
 		}
